@@ -74,14 +74,15 @@ where
                     };
                     acc
                 });
-        // Choose the group with the most members
-        if let Some((k, v)) = groups.iter().max_by_key(|c| c.1) {
-            if v > &1 {
-                // Found prefix is only useful if the group contains more than one member
-                k.to_vec()
-            } else {
-                vec![]
-            }
+        // Choose the group with the most members. If several groups have the same number of
+        // members the one that occurs first is taken, independent of the hash map's order.
+        let max_members = groups.values().max().copied().unwrap_or(0);
+        if max_members > 1 {
+            // Found prefix is only useful if the group contains more than one member
+            candidates_with_len_n
+                .iter()
+                .find(|c| groups.get(*c) == Some(&max_members))
+                .map_or(vec![], |k| k.to_vec())
         } else {
             vec![]
         }
